@@ -640,6 +640,52 @@ impl Ctx {
         let signed = fs.iter().any(|&f| f >= (1u32 << 31));
         let refh = if mag < (1u64 << 31) { Some(RefHuffman::from_frequencies(fs)) } else { None };
         let mut out: Vec<String> = vec![];
+        // the compressor of this table on the empty input and on every single byte (257 inputs): exact
+        // lengths, round trip, reference bytes; folded into one hash for the correspondence
+        {
+            let mut hh = FNV_OFFSET;
+            for k in 0..257u32 {
+                let xs: Vec<u8> = if k == 0 { vec![] } else { vec![(k - 1) as u8] };
+                let r = catch(|| (comp(&h, &xs, false), comp(&h, &xs, true)));
+                let (c, cb) = match r {
+                    Ok(v) => v,
+                    Err(msg) => {
+                        o.fail("C07/fq-compress-panic", format!("input={} {}", short(&xs), msg));
+                        hh = fnv_byte(hh, 0);
+                        continue;
+                    }
+                };
+                let (l, lb) = (h.compressed_len(&xs), h.compressed_len_bug(&xs));
+                if c.len() != l || cb.len() != lb || !(l <= lb && lb <= l + 1) {
+                    o.fail(
+                        "C07/fq-predicted-length",
+                        format!("input={} compress.len={} compressed_len={} compress_bug.len={} compressed_len_bug={}", short(&xs), c.len(), l, cb.len(), lb),
+                    );
+                }
+                for st in [&c, &cb] {
+                    if !matches!(dec(&h, st, xs.len(), FQ_OVR, o), Dec::Ok(v) if v == xs) {
+                        o.fail("C07/fq-roundtrip", format!("input={} stream={}", short(&xs), short(st)));
+                    }
+                }
+                if let Some(refh) = &refh {
+                    let rc = ref_comp(refh, &xs);
+                    if rc != cb {
+                        o.fail(
+                            if signed { "C07/fq-reference-signed-frequency" } else { "C07/fq-compress-bug-vs-reference" },
+                            format!("input={} compress_bug={} reference={}", short(&xs), short(&cb), short(&rc)),
+                        );
+                    }
+                }
+                hh = fnv_bytes(hh, &c);
+                hh = fnv_byte(hh, 0xff);
+                hh = fnv_bytes(hh, &cb);
+                hh = fnv_byte(hh, 0xfe);
+                hh = fnv_bytes(hh, &(l as u16).to_le_bytes());
+                hh = fnv_bytes(hh, &(lb as u16).to_le_bytes());
+            }
+            o.add("fqd_compress_inputs_swept", 257);
+            out.push(format!("h{}", hh));
+        }
         for (cap, xs) in items {
             let d = dec(&h, xs, *cap, FQ_OVR, o);
             o.count("fqd_decodes");
@@ -1239,12 +1285,18 @@ impl D {
         {
             let n_fqd = if thorough { 400 } else if search { 12 } else { 48 };
             for k in 0..n_fqd {
-                let fs: Vec<u32> = match k % 6 {
+                let fs: Vec<u32> = if k == 0 {
+                    vec![1u32; 256] // all codes 8 or 9 bits: symbols that exactly fill a byte
+                } else if k == 1 {
+                    vec![7u32; 256]
+                } else if k == 2 {
+                    (0..256).map(|i| if i < 128 { 1000 } else { 1 }).collect() // 7..10-bit codes
+                } else { match k % 6 {
                     0 | 1 | 2 => gen_chain_freqs(&mut rng),
                     3 => gen_freqs(&mut rng, 10, &shipped),
                     4 => gen_freqs(&mut rng, 4, &shipped),
                     _ => gen_freqs(&mut rng, 1, &shipped),
-                };
+                } };
                 let mut items: Vec<String> = vec![];
                 if let Ok(h) = catch(|| Huffman::from_frequencies(&fs)) {
                     // symbols with the longest codes, to put them into the streams
@@ -1256,7 +1308,12 @@ impl D {
                         let xs: Vec<u8> = (0..n)
                             .map(|_| if rng.chance(1, 2) { by_len[rng.below(6) as usize] as u8 } else { rng.next() as u8 })
                             .collect();
-                        let stream = comp(&h, &xs, rng.chance(1, 2));
+                        // (a broken compressor must not take the generator down)
+                        let bugf = rng.chance(1, 2);
+                        let stream = match catch(|| comp(&h, &xs, bugf)) {
+                            Ok(s) => s,
+                            Err(_) => rng.bytes(3 * xs.len() + 2),
+                        };
                         let l = xs.len();
                         // the full stream at every capacity
                         for cap in 0..=l + 2 {
